@@ -584,7 +584,7 @@ def _dround(ev, a, sh, at, mode, default_digits=None):
     else:
         raise NoOpinion('digits missing')
     d = Decimal(format(x, '.15g')) if isinstance(x, float) else Decimal(x)
-    q = d.quantize(Decimal(1).scaleb(-int(n)), rounding=mode, context=decimal.Context(prec=400))
+    q = d.quantize(Decimal((0, (1,), -int(n))), rounding=mode, context=decimal.Context(prec=400, traps=[]))
     return float(q)
 
 
@@ -1141,7 +1141,9 @@ def _select(pairs, n):
     return sel
 
 
-def _target_numbers(ev, vals):
+def _target_numbers(ev, vals, summing=False):
+    """the numbers among the selected cells of the sum / average range.  Summing passes over texts (as SUM does); a date cell in
+    a sum and an average over texts or dates are left unjudged"""
     out = []
     for v in vals:
         if is_num(v):
@@ -1150,9 +1152,14 @@ def _target_numbers(ev, vals):
             if ev.choose('bool_target_counts_as_number'):
                 out.append(int(v))
         elif isinstance(v, str):
-            raise NoOpinion('text in target range')
+            if v in ERROR_TEXTS:
+                raise NoOpinion('error text in target range')
+            if not summing:
+                raise NoOpinion('text in target range')
         elif isinstance(v, dt.datetime):
             raise NoOpinion('date in target range')
+        elif isinstance(v, (list, Area)):
+            raise NoOpinion('list value in target range')
     return out
 
 
@@ -1175,7 +1182,7 @@ def _sumifs(ev, a, sh, at):
     pairs = _crit_pairs(ev, a[1:], sh, at)
     _check_shapes([r for r, _ in pairs], target)
     sel = _select(pairs, len(target.flat()))
-    return sum(_target_numbers(ev, [v for v, s in zip(target.flat(), sel) if s]))
+    return sum(_target_numbers(ev, [v for v, s in zip(target.flat(), sel) if s], summing=True))
 
 
 @fn('AVERAGEIFS', 3, 255)
@@ -1184,6 +1191,10 @@ def _averageifs(ev, a, sh, at):
     pairs = _crit_pairs(ev, a[1:], sh, at)
     _check_shapes([r for r, _ in pairs], target)
     sel = _select(pairs, len(target.flat()))
+    if any(isinstance(v, (str, dt.datetime)) for v in target.flat()):
+        # a text anywhere in the average range - selected or not - makes the library answer '#DIV0!' (asserted by the repository's own
+        # test_with_string_in_average_range); the statement speaks of the selected cells only: unjudged
+        raise NoOpinion('text / date somewhere in the average range')
     nums = _target_numbers(ev, [v for v, s in zip(target.flat(), sel) if s])
     if not nums:
         raise XlError(None)
@@ -1221,7 +1232,7 @@ def _sumif(ev, a, sh, at):
     else:
         target = rng
     sel = [p(v) for v in rng.flat()]
-    return sum(_target_numbers(ev, [v for v, s in zip(target.flat(), sel) if s]))
+    return sum(_target_numbers(ev, [v for v, s in zip(target.flat(), sel) if s], summing=True))
 
 
 # ================================================================================================
